@@ -26,7 +26,7 @@ Funcs(i, n) == IF i > n THEN <<>> ELSE (IF i > 1 THEN <<Empty>> ELSE <<>>) \o Sm
 (* a line of the given kind padded to visual width n by the width of one slot; tabAt: a TAB inside a comment *)
 (* after `off` characters of text (0: none) so that the tab-stop arithmetic is exercised at every offset      *)
 WKinds == {"stmt", "decl", "proto", "define", "linecomment", "blockcomment", "mc_first", "mc_interior", "mc_last",
-           "code_then_comment", "stmt_nested", "string_arg", "tabbed_comment"}
+           "code_then_comment", "stmt_nested", "string_arg", "tabbed_comment", "tabbed_linecomment", "code_then_tabbed_comment"}
 WLine(kind, n, off) ==
   CASE kind = "stmt" -> Line("stmt", "IsFunctionCall", Tabs(1) \o <<Slot("f", n - 4 - 9, 7), L("(", 1), V3, L(", ", 2), N1, L(");", 2)>>)
     [] kind = "stmt_nested" -> Line("stmt", "IsFunctionCall", Tabs(3) \o <<Slot("f", n - 12 - 9, 7), L("(", 1), V3, L(", ", 2), N1, L(");", 2)>>)
@@ -40,6 +40,11 @@ WLine(kind, n, off) ==
                                           <<L("#include <", 10), Slot("inc", 6, 0), L(".h>", 3), L(" // ", 4), Slot("txt", n - 23, 0)>>)
     [] kind = "tabbed_comment" -> Line("comment", "IsComment",
                                        <<L("/* ", 3), Slot("txt", off, 0), TAB1, Slot("txt", n - (3 + off + (4 - ((3 + off) % 4))) - 3, 0), L(" */", 3)>>)
+    [] kind = "tabbed_linecomment" -> Line("comment", "IsComment",
+                                           <<L("// ", 3), Slot("txt", off, 0), TAB1, Slot("txt", n - (3 + off + (4 - ((3 + off) % 4))), 0)>>)
+    [] kind = "code_then_tabbed_comment" -> Line("include", "IsPreprocessorStatement",
+                                                 <<L("#include <", 10), Slot("inc", 6, 0), L(".h>", 3), L(" // ", 4), Slot("txt", off, 0), TAB1,
+                                                   Slot("txt", n - (23 + off + (4 - ((23 + off) % 4))), 0)>>)
     [] OTHER -> Line("mc", "IsComment", <<>>)
 (* three-line block comments whose first / interior / last line has width n *)
 McLines(kind, n) ==
@@ -49,7 +54,7 @@ McLines(kind, n) ==
         Line("mcpart", "", <<L("** ", 3), IF kind = "mc_interior" THEN long ELSE short>>),
         Line("mcpart", "", IF kind = "mc_last" THEN <<Slot("txt", n - 3, 0), L(" */", 3)>> ELSE <<L("*/", 2)>>) >>
 
-WidthCases == {[lim |-> "width", kind |-> k, n |-> n, off |-> IF k = "tabbed_comment" THEN o ELSE 0, pos |-> p]
+WidthCases == {[lim |-> "width", kind |-> k, n |-> n, off |-> IF k \in {"tabbed_comment", "tabbed_linecomment", "code_then_tabbed_comment"} THEN o ELSE 0, pos |-> p]
                  : k \in WKinds, n \in 77..86, o \in 1..4, p \in {"top", "afterfunc", "lastline", "lastline_nonl"}}     \* _nonl: the file ends without a final newline
 WidthProg(c) ==
   LET inBody == c.kind \in {"stmt", "stmt_nested", "string_arg", "decl"}
